@@ -6,9 +6,10 @@ set -u
 ID="$1"; SRC="$2"; NAME="${3:-$ID}"
 HERE="$(cd "$(dirname "$0")/.." && pwd)"
 OUT="$HERE/seeded/$NAME"; mkdir -p "$OUT"
-cp "$SRC/patch.diff" "$SRC/seeded_demo.rs" "$OUT/" || exit 2
-[ -f "$SRC/NOTES.md" ] && cp "$SRC/NOTES.md" "$OUT/NOTES.md"
-CONF="$("$HERE/tools/confirm_seeded.sh" "$ID" "$OUT" "$NAME" 2>&1)"
+if [ "$(readlink -f "$SRC")" != "$(readlink -f "$OUT")" ]; then cp "$SRC/patch.diff" "$SRC/seeded_demo.rs" "$OUT/" || exit 2; [ -f "$SRC/NOTES.md" ] && cp "$SRC/NOTES.md" "$OUT/NOTES.md"; fi
+# CONFIRM_LOG=<file>: reuse the output of an earlier tools/confirm_seeded.sh run for this change (confirmations can
+# run in parallel in scratch worktrees; the checks below need /repo and run one at a time)
+if [ -n "${CONFIRM_LOG:-}" ] && [ -f "$CONFIRM_LOG" ]; then CONF="$(cat "$CONFIRM_LOG")"; else CONF="$("$HERE/tools/confirm_seeded.sh" "$ID" "$OUT" "$NAME" 2>&1)"; fi
 echo "$CONF" | tail -5
 VERDICT="$(echo "$CONF" | tail -1)"
 Q="not run"; T="not run"; QV=""; TV=""
